@@ -8,6 +8,7 @@ import MoreExec.Props.C07
 #print axioms MoreExec.Throttle.C07_blocking_guard_facts
 #print axioms MoreExec.Throttle.C07_block_test_spec
 #print axioms MoreExec.Throttle.C07_admission_notifies_iff_popped
+#print axioms MoreExec.Throttle.C07_admission_is_block_pop
 #print axioms MoreExec.BlockProto.C07_blocked_only_while_full
 #print axioms MoreExec.BlockProto.C07_room_wakes_all
 #print axioms MoreExec.Throttle.C07_admission_kernel
